@@ -389,6 +389,40 @@ def search(tier, seed):
     s = stream_verbosity("quick", seed + 1)
     if s["problems"]:
         return s["problems"][0]
+    bad = probe_results_after_history()
+    if bad:
+        return bad
+    return None
+
+
+def probe_results_after_history():
+    """RESULTS (not solver input) of a model B after a solved model A of another size, in a child process: the value of B's
+    stationary gradient -- a zero vector -- has as many coordinates as B's other points (a module-level null object handed
+    out as that gradient would keep the length of model A: seed C12-12)."""
+    code = (
+        "import warnings; warnings.filterwarnings('ignore')\n"
+        "from PEPit import PEP\n"
+        "from PEPit.functions import SmoothConvexFunction\n"
+        "def model(n):\n"
+        "    pep = PEP(); f = pep.declare_function(SmoothConvexFunction, L=1.)\n"
+        "    xs = f.stationary_point(); x = pep.set_initial_point(); pep.set_initial_condition((x - xs) ** 2 <= 1)\n"
+        "    for _ in range(n): x = x - f.gradient(x)\n"
+        "    pep.set_performance_metric(f(x) - f(xs)); pep.solve(verbose=0)\n"
+        "    g = f.list_of_stationary_points[0][1]\n"
+        "    return len(g.eval()), len(xs.eval())\n"
+        "a = model(1); b = model(3)\n"
+        "print('RES', a[0], a[1], b[0], b[1])\n")
+    import subprocess
+    import sys
+    try:
+        out = subprocess.run([sys.executable, "-c", code], capture_output=True, text=True, timeout=300).stdout
+        vals = [int(x) for x in out.split("RES")[1].split()]
+    except Exception:
+        return None
+    if vals[2] != vals[3]:
+        return dict(kind="result-depends-on-history", what="stationary gradient of the second model evaluates to a vector of "
+                    "length %d, its points have %d coordinates (the first model had %d)" % (vals[2], vals[3], vals[1]),
+                    program="model(1); model(3): gradient-descent PEPs with 1 and 3 steps, stationary gradient evaluated after each solve")
     return None
 
 
@@ -446,6 +480,8 @@ def replay(payload):
         if isinstance(a[1], str):
             return a[1] != b[1]
         return a[1] is not None and abs(a[1] - b[1]) > 1e-6 * max(1.0, abs(a[1]))
+    if kind == "result-depends-on-history":
+        return probe_results_after_history() is not None
     if kind == "null-point-cache":
         return null_point_leak()[1]
     if kind == "null-object-mutated":
